@@ -557,23 +557,28 @@ def opDiv (a : Obj α) (c : Scal α) : Except Err (Obj α) :=
       (fun dx => do let d ← a.evalDt dx; pure (resultTypeS d c.kind.sk)))
   else .error .type
 
+/-- `LinearOperator._to_output_space` (repo commit 9a89e4c): map a cotangent into the output space of
+    `a` — real part when that space is real, then `astype(output_dtype)` -/
+def toOutSpace (a : Obj α) (v : Vc α) : Vc α :=
+  if a.md.outDt.isComplex then v else vmap a.m re v
+
 /-- `LinearOperator.__mul__ / __rmul__` -/
 def linMul (a : Obj α) (c : Scal α) : Except Err (Obj α) :=
   if c.kind.isScalarEquiv then
     .ok (mkLin .linop a.md.inShape a.md.outShape a.md.inDt (resultTypeS a.md.outDt c.kind.sk)
       (fun x => vmap a.m (fun t => c.val * t) (a.eval x))
-      (fun y => vmap a.n (fun t => conj c.val * t) (a.adj y))
+      (fun y => a.adj (toOutSpace a (vmap a.m (fun t => conj c.val * t) y)))
       (fun dx => do let d ← a.evalDt dx; pure (resultTypeS d c.kind.sk))
-      (fun dy => do let d ← a.adjCallDt dy; pure (resultTypeS d c.kind.sk)))
+      (fun _ => a.adjCallDt a.md.outDt))
   else .error .type
 
 def linDiv (a : Obj α) (c : Scal α) : Except Err (Obj α) :=
   if c.kind.isScalarEquiv then
     .ok (mkLin .linop a.md.inShape a.md.outShape a.md.inDt (resultTypeS a.md.outDt c.kind.sk)
       (fun x => vmap a.m (fun t => t / c.val) (a.eval x))
-      (fun y => vmap a.n (fun t => t / conj c.val) (a.adj y))
+      (fun y => a.adj (toOutSpace a (vmap a.m (fun t => t / conj c.val) y)))
       (fun dx => do let d ← a.evalDt dx; pure (resultTypeS d c.kind.sk))
-      (fun dy => do let d ← a.adjCallDt dy; pure (resultTypeS d c.kind.sk)))
+      (fun _ => a.adjCallDt a.md.outDt))
   else .error .type
 
 /-- `Operator.__call__(self, x)` for an operator `x` -/
